@@ -94,6 +94,9 @@ noerr:
 			switch {
 			case err == nil:
 			case err == ErrReadOnly, errors.IsCorrupted(err):
+				// SetReadOnly sends ErrReadOnly while holding the write lock:
+				// the lock is ours from now on.
+				db.compWriteLocking = err == ErrReadOnly
 				goto hasperr
 			default:
 				goto haserr
@@ -112,6 +115,7 @@ haserr:
 			case err == nil:
 				goto noerr
 			case err == ErrReadOnly, errors.IsCorrupted(err):
+				db.compWriteLocking = err == ErrReadOnly
 				goto hasperr
 			default:
 			}
